@@ -53,7 +53,13 @@ def run(ctx):
                 src = {o.call.name for o in origins(wp, pc.args[0]) if o.kind == "call"}
                 if src == {NOTIFIED} and T and all(wp.uncrossed_path([0], [pc.block], edges=T) is None for _ in [0]):
                     okp = True
-            r1.check(okp, "await-registered-future", "on paused==true the function awaits the Notified created before the read", "wait_paused does not await the pre-registered Notified on the paused==true edge (it creates a new one or does not wait)")
+            # the same future under a deadline is a wait that is given up: PAUSE holds until RESUME, not for a while (round 11)
+            timed = [pc for pc in polls if not okp and NOTIFIED in {o.call.name for o in origins(wp, pc.args[0], taint=True) if o.kind == "call"}
+                     and any(re.search(r"tokio::time::(timeout|sleep|interval)", o.call.name) for o in origins(wp, pc.args[0], taint=True) if o.kind == "call")]
+            r1.check(okp, "await-registered-future", "on paused==true the function awaits the Notified created before the read",
+                     ("wait_paused awaits the registered Notified only under a deadline (%s): when it runs out the client goes on to its checkout although nobody has resumed the pool - PAUSE holds new transactions until RESUME, however long that takes"
+                      % sorted({o.call.name.split("::")[-1] for o in origins(wp, timed[0].args[0], taint=True) if o.kind == "call" and "tokio::time" in o.call.name})) if timed else
+                     "wait_paused does not await the pre-registered Notified on the paused==true edge (it creates a new one or does not wait)", timed[0].where() if timed else "")
             # on paused == false it does not wait
             rets = [bb for bb, blk in enumerate(wp.blocks) if blk["term"]["k"] == "return"]
             ys = [bb for bb, blk in enumerate(wp.blocks) if blk["term"]["k"] == "yield"]
